@@ -50,7 +50,10 @@ class Leaves:
 NUM_LEAVES, TXT_LEAVES = Leaves(NUM_OK, NUM_ERR), Leaves(TXT_OK, TXT_ERR)
 CONTEXTS = [('bare', '{}', 'any'), ('add_l', '{}+1', 'num'), ('add_r', '1+{}', 'num'), ('mul', '{}*2', 'num'), ('amp_l', '{}&"z"', 'txt'),
             ('amp_r', '"z"&{}', 'txt'), ('cmp', '{}>1', 'num'), ('sum', 'SUM({},1)', 'num'), ('round', 'ROUND({},0)', 'num'),
-            ('left', 'LEFT({},1)', 'txt'), ('ifcond', 'IF({}>0,"p","q")', 'num')]
+            ('left', 'LEFT({},1)', 'txt'), ('ifcond', 'IF({}>0,"p","q")', 'num'),
+            # the nest handed through TEXT (which passes its first argument on), then used as an operand; signs and percent at the nest
+            ('text_add', 'TEXT({},"0")+10', 'num'), ('add_text', '10+TEXT({},"0")', 'num'), ('text_neg', '-TEXT({},"0")', 'num'), ('text_mul', 'TEXT({},"0")*2', 'num'),
+            ('pct', '{}%', 'num'), ('neg', '-{}', 'num'), ('pct_mul', '{}%*2+1', 'num'), ('div', '12/{}', 'num')]
 KINDS = ['IF3', 'IF2', 'IFS1', 'IFS2', 'IFERROR']
 
 
